@@ -7,7 +7,12 @@ whole-line comment indented like the previous / next statement, empty line,
 whitespace-only line, trailing spaces, final newline on/off, LF <-> CRLF;
 existing comments / blank lines of samples are removed one at a time; redundant
 parentheses are put around every sub-expression of the M0 trees.  Oracle: same
-verdict and byte-identical Python (AST-identical for the parentheses item).
+verdict and byte-identical Python (same behaviour for the parentheses item).
+Parser level (mvdrv layoutparse): ALL well-formed line skeletons of <= 5 (6)
+code lines (statements, if / else, while, for, def, class with members, match
+and handle with one-line and block arms, nested) x every single trivia
+placement (and doubled blank / comment lines, CRLF, final newlines): the parse
+verdict and the parse tree with positions erased must equal the skeleton's.
 """
 import ast
 import itertools
@@ -195,6 +200,14 @@ def evaluate(case, drv):
                 else:
                     res["stats"]["c14.parens-shape-differs-behaviour-same"] = res["stats"].get("c14.parens-shape-differs-behaviour-same", 0) + 1
 
+    if case.get("mode") == "layoutparse":
+        # replay of a parser-level layout failure: parse base and variant, compare verdict and shape
+        a, b = drv.parse(case["src"]), drv.parse(case["variant"])
+        if a["v"] != b["v"]:
+            res["fail"].append({"family": "c14.layoutparse", "kind": "verdict-changes", "detail": "%s: base %s, variant %s %s" % (case["desc"], a["v"], b["v"], b.get("msg", "")), "tags": case["tags"]})
+        elif a["v"] == "ok" and a["shape"] != b["shape"]:
+            res["fail"].append({"family": "c14.layoutparse", "kind": "parse-tree-changes", "detail": case["desc"], "tags": case["tags"]})
+        return res
     if case.get("single"):
         check(case["desc"], case["variant"], case["mode"])
         return res
@@ -232,3 +245,30 @@ def context_tags(src, desc):
 def coverage(tier, agg):
     return {"distinct_nontrivial": int(agg["stats"].get("c14.compared", 0)),
             "explanation": "distinct_nontrivial = trivia variants of accepted bases whose output was compared byte for byte (variants are distinct texts by construction)"}
+
+
+def direct(tier, seed, agg):
+    """parser level: ALL well-formed line skeletons up to N code lines x every single trivia placement (mvdrv layoutparse)"""
+    import json
+    from ..pool import run_shards
+    n = 16
+    maxlines = 5 if tier == "quick" else 6
+    tot = {"skeletons": 0, "variants": 0, "failing": 0, "rejected_bases": 0}
+    for a, lines, rc, err in run_shards([["layoutparse", maxlines, i, n] for i in range(n)]):
+        if rc != 0:
+            yield {"machinery": "layoutparse shard %s exited %s: %s" % (a, rc, err[-300:]), "cid": "layoutparse"}
+            return
+        for l in lines:
+            if l.startswith("S "):
+                s = json.loads(l[2:])
+                for k in tot:
+                    tot[k] += s.get(k, 0)
+            elif l.startswith("F "):
+                d = json.loads(l[2:])
+                tags = ["trivia:" + re.sub(r"@.*", "", d.get("trivia", "")), "layoutparse"]
+                case = {"id": "layoutparse", "family": "c14.layoutparse", "mode": "layoutparse", "src": d["base"], "variant": d["input"], "desc": d.get("trivia", ""), "tags": tags, "prog": None, "pairs": False}
+                yield {"fail": [{"family": "c14.layoutparse", "kind": d["kind"], "detail": d["detail"], "tags": tags}], "case": case, "cid": "layoutparse", "evals": 0}
+    agg["extra"]["layoutparse"] = dict(tot, max_code_lines=maxlines)
+    agg["stats"]["c14.compared"] += tot["variants"]
+    agg["samples"].append({"layoutparse": "skeleton 'if c then / print(1) / else / def v := 2' with '    # n' inserted before 'else'"})
+    yield {"evals": tot["variants"] + tot["skeletons"], "cid": "layoutparse", "stats": {"c14.layoutparse.variants": tot["variants"], "c14.layoutparse.skeletons": tot["skeletons"]}}
